@@ -86,7 +86,7 @@ def _cases(tier):
             if o:
                 for kind in LOCAL_KINDS:
                     cases.append({"sh": "localcall", "old": o, "new": n, "kind": kind})
-    for sh in ("dict", "kwcall"):
+    for sh in ("dict", "kwcall", "ddict", "ddictin"):
         for o in M:
             for n in M:
                 cases.append({"sh": sh, "old": o, "new": n})
@@ -134,8 +134,9 @@ def _old_text(c):
         return "{'gr\xfc\xdfe\U0001f40d': %s, 'z': 7}" % _seq_text(c["old"], "list", c)
     if sh == "indict":
         return "{'k': %s, 'z': 7}" % _seq_text(c["old"], "list", c)
-    if sh == "dict":
-        return "{" + ", ".join("%r: %s" % (k, _par(c, i, HAND[v])) for i, (k, v) in enumerate(c["old"].items())) + "}"
+    if sh in ("dict", "ddict", "ddictin"):
+        t = "{" + ", ".join("%r: %s" % (k, _par(c, i, HAND[v])) for i, (k, v) in enumerate(c["old"].items())) + "}"
+        return {"dict": "%s", "ddict": "defaultdict(int, %s)", "ddictin": "[7, defaultdict(int, %s)]"}[sh] % t
     if sh in ("kwcall", "ntcall", "dcrcall", "localcall"):
         return {"kwcall": "DC3", "ntcall": "NT3", "dcrcall": "DCR", "localcall": "Row"}[sh] + "(" + ", ".join("%s=%s" % (k, _par(c, i, HAND[v])) for i, (k, v) in enumerate(c["old"].items())) + ")"
 
@@ -158,8 +159,9 @@ def _new_expr(c):
     items = list(n.items())
     if c.get("rev"):
         items = items[::-1]
-    if sh == "dict":
-        return "{" + ", ".join("%r: %r" % kv for kv in items) + "}"
+    if sh in ("dict", "ddict", "ddictin"):
+        t = "{" + ", ".join("%r: %r" % kv for kv in items) + "}"
+        return {"dict": "%s", "ddict": "defaultdict(int, %s)", "ddictin": "[7, defaultdict(int, %s)]"}[sh] % t
     return {"kwcall": "DC3", "ntcall": "NT3", "dcrcall": "DCR", "localcall": "Row"}.get(sh, "DC3") + "(" + ", ".join("%s=%r" % kv for kv in items) + ")"
 
 
@@ -190,8 +192,15 @@ def _analyze(c, i, before, after, rx, ctx):
         node = loc.tree.body[0].value
     except Exception as e:  # noqa
         return ("unparsable-argument", "%r: %s" % (text[:200], e))
-    if sh in ("dict", "kwcall", "ntcall", "dcrcall", "localcall"):
-        if sh == "dict":
+    if sh in ("dict", "kwcall", "ntcall", "dcrcall", "localcall", "ddict", "ddictin"):
+        if sh in ("ddict", "ddictin"):
+            try:
+                node = node.elts[1] if sh == "ddictin" else node
+                assert isinstance(node, ast.Call) and node.func.id == "defaultdict"
+                node = node.args[1] if len(node.args) > 1 else ast.Dict(keys=[], values=[])
+            except Exception:
+                return ("shape-lost", text[:200])
+        if sh in ("dict", "ddict", "ddictin"):
             if not isinstance(node, ast.Dict):
                 return ("shape-lost", text[:200])
             pairs = [(ast.literal_eval(k), loc.seg(v)) for k, v in zip(node.keys, node.values)]
@@ -201,7 +210,7 @@ def _analyze(c, i, before, after, rx, ctx):
             pairs = [(k.arg, loc.seg(k.value)) for k in node.keywords]
         got = dict(pairs)
         for k, v in c["old"].items():
-            newv = c["new"].get(k, 9 if sh != "dict" else None)
+            newv = c["new"].get(k, 9 if sh not in ("dict", "ddict", "ddictin") else None)
             if sh == "dcrcall" and k == "b":
                 continue  # a repr=False field never round-trips through the generated code
             if newv == v:
@@ -236,6 +245,8 @@ WEIRD = "W1 = 'u2028:\u2028 u2029:\u2029 x85:\x85 x1c:\x1c'  # \x0b vt\n\x0c\nW2
 
 def _judge(cases):
     hdr = DC3 if any(c["sh"] in ("kwcall", "ntcall", "dcrcall", "localcall") for c in cases) else ""
+    if any(c["sh"] in ("ddict", "ddictin") for c in cases):
+        hdr = "from collections import defaultdict\n" + hdr
     if any(c.get("weird") for c in cases):
         # characters that str.splitlines() treats as line ends but the Python tokenizer does not, above every call of the module
         hdr = "from inline_snapshot import snapshot\n" + WEIRD + hdr
